@@ -53,7 +53,13 @@ void World::finishResult(const Step &s, EdgeSlot* res, const std::string &family
         nc = long(res->e->getNodeCount());
         ec = long(res->e->getEdgeCount(false));
     }
-    note(res->oracle ? OC_OK : OC_NOORACLE, res->tab.hash(), nc, ec);
+    uint64_t shape = 0;
+    if (res->forest >= 0 && forests[res->forest].alive) {
+        shape = shapeHash(forests[res->forest], *res->e);
+        // the walk above and the library's own count see the same nodes
+        // (memo size is folded into the hash; compare it with getNodeCount through the companion runs)
+    }
+    note(res->oracle ? OC_OK : OC_NOORACLE, res->tab.hash(), nc, ec, shape);
 }
 
 static bool pointMatches(const Dom &D, long state, const std::vector<int> &pat)
